@@ -15,6 +15,7 @@ def run(ctx):
     import c04
     c04.outcome_under_every_progress(ctx)      # a failing call makes run RAISE whatever progress display is attached
     retry_across_calls(ctx)
+    same_exception_object(ctx)
     implicit_call_failures(ctx)
     failing_call_without_cwd(ctx)
     engine_corr.campaign(ctx, {"C06"})
@@ -286,3 +287,39 @@ def retry_across_calls(ctx):
                     if problems:
                         ctx.fail("retry-across-calls", "retry=%d, max_workers=%d, max_errors=%r, %s: %s" % (retry, workers, max_errors, shape, "; ".join(problems)),
                                  {"retry": retry, "max_workers": workers, "max_errors": max_errors, "shape": shape, "attempts": dict(attempts)})
+
+
+def same_exception_object(ctx):
+    """The SAME exception object raised again (a module-level error instance, a memoised failure): in every run the error names a call
+    that raised in THIS run - never the call of an earlier run or of another plan - and chains that very object."""
+    uberjob = core.use_repo()
+    shared = ValueError("shared")
+
+    def reraise(*a):
+        raise shared
+    earlier = []
+    for rnd in range(3):
+        for workers, max_errors in ((1, 0), (3, None)):
+            plan = uberjob.Plan()
+            ok = plan.call(lambda: 1)
+            bad = [plan.call(reraise, ok, i) for i in range(2 if max_errors is None else 1)]
+            after = plan.call(lambda *a: 0, *bad)
+            ctx.case(("same-exception-object", rnd, workers, max_errors))
+            try:
+                uberjob.run(plan, output=after, max_workers=workers, max_errors=max_errors, progress=None)
+                oc, err = "returned", None
+            except uberjob.CallError as e:
+                oc, err = "callerror", e
+            except BaseException as e:      # noqa
+                oc, err = "raised %s" % type(e).__name__, None
+            problem = None
+            if oc != "callerror":
+                problem = "run %s" % oc
+            elif not any(err.call is b for b in bad):
+                problem = "the error names %s" % ("the failing call of an EARLIER run (another plan)" if any(err.call is b for b in earlier) else "a call that did not raise in this run")
+            elif err.__cause__ is not shared:
+                problem = "the cause is %r, not the exception object raised" % (err.__cause__,)
+            earlier.extend(bad)
+            if problem:
+                ctx.fail("same-exception-object", "a call raising a module-level exception instance, run number %d with that instance (max_workers=%d, max_errors=%r): %s"
+                         % (len(earlier), workers, max_errors, problem), {"round": rnd, "max_workers": workers, "max_errors": max_errors})
